@@ -472,4 +472,87 @@ theorem forall₂_mem_left {β γ : Type} {R : β → γ → Prop} {l1 : List β
     · exact ⟨_, by simp, hab⟩
     · obtain ⟨b, hb, hr⟩ := ih ha'; exact ⟨b, by simp [hb], hr⟩
 
+
+/-! ### when `extract_solution` does NOT raise -/
+
+theorem updateModule_isSome (ans : Answer α) (m : Module α)
+    (h : m.hard = true → m.fixed = false → totalArea m.rects ≠ 0) : (updateModule ans m).isSome = true := by
+  unfold updateModule
+  dsimp only
+  split
+  · rename_i hc
+    simp only [Bool.and_eq_true, Bool.not_eq_true'] at hc
+    have := recenter_isSome (ans.x m.name) (ans.y m.name) m.rects (h hc.1 hc.2)
+    obtain ⟨rs, hrs⟩ := Option.isSome_iff_exists.mp this
+    rw [hrs]; rfl
+  · rfl
+
+theorem updateModules_isSome (ans : Answer α) (mods : List (Module α))
+    (h : ∀ m ∈ mods, m.hard = true → m.fixed = false → totalArea m.rects ≠ 0) : (updateModules ans mods).isSome = true := by
+  induction mods with
+  | nil => rfl
+  | cons m ms ih =>
+    obtain ⟨m', hm'⟩ := Option.isSome_iff_exists.mp (updateModule_isSome ans m (h m (by simp)))
+    obtain ⟨ms', hms'⟩ := Option.isSome_iff_exists.mp (ih fun x hx => h x (by simp [hx]))
+    unfold updateModules
+    rw [hm', hms']; rfl
+
+/-- the four checks of the `Allocation` constructor pass on the allocation list when: every listed ratio is in `[0,1]`,
+    some ratio passes the threshold filter, the offered cells are in the positive quadrant and pairwise overlap at most
+    `εA`. -/
+theorem allocationCtor_allocList (ans : Answer α) (εA thr : α) (mods : List (Module α)) (cells : List (Rect α))
+    (hb : ∀ m ∈ mods, ∀ c < cells.length, 0 ≤ ans.a m.name c ∧ ans.a m.name c ≤ 1)
+    (hne : ∃ m ∈ mods, ∃ c, c < cells.length ∧ 1 - thr < ans.a m.name c)
+    (hq : ∀ r ∈ cells, 0 ≤ r.xmin ∧ 0 ≤ r.ymin)
+    (hsep : cells.Pairwise fun a b => a.areaOverlap b ≤ εA) :
+    allocationCtor εA (allocList ans thr mods cells) = .ok (allocList ans thr mods cells) := by
+  have hsub := allocList_rects_sublist ans thr mods cells
+  have c1 : ((allocList ans thr mods cells).all fun ra =>
+      ra.alloc.all fun p => decide ((zero : α) ≤ p.2) && decide (p.2 ≤ one)) = true := by
+    simp only [List.all_eq_true, Bool.and_eq_true, decide_eq_true_eq, zero_eq, one_eq]
+    intro ra hra p hp
+    obtain ⟨c, cell, hc, _, rfl⟩ := (mem_allocList ans thr mods cells ra).mp hra
+    have hlt : c < cells.length := by
+      by_contra hge
+      rw [List.getElem?_eq_none (Nat.le_of_not_lt hge)] at hc; exact absurd hc (by simp)
+    obtain ⟨m, hm, _, hv, _⟩ := (mem_cellAlloc ans thr mods c p.1 p.2).mp hp
+    rw [← hv]; exact hb m hm c hlt
+  have c2 : (allocList ans thr mods cells).isEmpty = false := by
+    obtain ⟨m, hm, c, hc, hlt⟩ := hne
+    have hmem : (m.name, ans.a m.name c) ∈ cellAlloc ans thr mods c :=
+      (mem_cellAlloc ans thr mods c _ _).mpr ⟨m, hm, rfl, rfl, hlt⟩
+    have : ({ rect := cells[c], alloc := cellAlloc ans thr mods c, depth := 0 } : RectAlloc α) ∈
+        allocList ans thr mods cells :=
+      (mem_allocList ans thr mods cells _).mpr ⟨c, cells[c], by simp [hc], List.ne_nil_of_mem hmem, rfl⟩
+    cases hl : allocList ans thr mods cells with
+    | nil => rw [hl] at this; cases this
+    | cons _ _ => rfl
+  have c3 : ((allocList ans thr mods cells).all fun ra =>
+      decide ((zero : α) ≤ ra.rect.xmin) && decide ((zero : α) ≤ ra.rect.ymin)) = true := by
+    simp only [List.all_eq_true, Bool.and_eq_true, decide_eq_true_eq, zero_eq]
+    intro ra hra
+    exact hq ra.rect (hsub.subset (List.mem_map.mpr ⟨ra, hra, rfl⟩))
+  have c4 : allPairs (fun a b : RectAlloc α => !(Rect.overlap εA a.rect b.rect)) (allocList ans thr mods cells) = true := by
+    rw [allPairs_iff_pairwise]
+    have := hsep.sublist hsub
+    rw [List.pairwise_map] at this
+    refine this.imp ?_
+    intro a b hab
+    simp [Rect.overlap, not_lt.mpr hab]
+  unfold allocationCtor
+  rw [if_neg (by rw [c1]; simp), if_neg (by rw [c2]; simp), if_neg (by rw [c3]; simp), if_neg (by rw [c4]; simp)]
+
+theorem extractSolution_returns (ans : Answer α) (εA thr : α) (mods : List (Module α)) (cells : List (Rect α))
+    (hb : ∀ m ∈ mods, ∀ c < cells.length, 0 ≤ ans.a m.name c ∧ ans.a m.name c ≤ 1)
+    (hne : ∃ m ∈ mods, ∃ c, c < cells.length ∧ 1 - thr < ans.a m.name c)
+    (hq : ∀ r ∈ cells, 0 ≤ r.xmin ∧ 0 ≤ r.ymin)
+    (hsep : cells.Pairwise fun a b => a.areaOverlap b ≤ εA)
+    (harea : ∀ m ∈ mods, m.hard = true → m.fixed = false → totalArea m.rects ≠ 0) :
+    ∃ ms, extractSolution ans εA thr mods cells = .ok (allocList ans thr mods cells, ms) := by
+  obtain ⟨ms, hms⟩ := Option.isSome_iff_exists.mp (updateModules_isSome ans mods harea)
+  refine ⟨ms, ?_⟩
+  unfold extractSolution
+  rw [allocationCtor_allocList ans εA thr mods cells hb hne hq hsep]
+  simp only [hms]
+
 end FV.Glb
